@@ -11,7 +11,7 @@ from oracle_util import *  # noqa
 from protocol import from_real
 
 ID = "C16"
-LEAN_MODULE = ["SCoda.Props.C16", "SCoda.Props.C16b", "SCoda.Props.Purity", "SCoda.Props.C16c", "SCoda.Props.C16cW", "SCoda.Props.WrapTie", "SCoda.Props.ElemTie", "SCoda.Props.StaticLink", "SCoda.Props.HeapTie", "SCoda.Props.HeapTie2", "SCoda.Props.HeapTieB", "SCoda.Props.ElemTieCh"]
+LEAN_MODULE = ["SCoda.Props.C16", "SCoda.Props.C16b", "SCoda.Props.Purity", "SCoda.Props.C16c", "SCoda.Props.C16cW", "SCoda.Props.WrapTie", "SCoda.Props.ElemTie", "SCoda.Props.StaticLink", "SCoda.Props.HeapTie", "SCoda.Props.HeapTie2", "SCoda.Props.HeapTieB", "SCoda.Props.ElemTieCh", "SCoda.Props.HeapTie3"]
 EXTRA_TARGETS = ["heapdriver"]
 CLAUSES = [
     ("a message-wise copy holds the same message values as its original (equals: C17.refl)", ["SCoda.C16.copy_derive", "SCoda.C16.copyAll_spec"]),
@@ -63,6 +63,8 @@ CLAUSES = [
      ["SCoda.HeapTie.messageCopy_eq", "SCoda.HeapTie.abstractSequenceCopy_eq", "SCoda.HeapTie.sequenceCopy_eq", "SCoda.HeapTie.sequenceSplit_eq", "SCoda.HeapTie.barInit_eq", "SCoda.HeapTie.barCopy_eq", "SCoda.HeapTie.trackInit_eq", "SCoda.HeapTie.trackCopy_eq", "SCoda.HeapTie.compositionCopy_eq", "SCoda.HeapTie.messageCopy_fresh", "SCoda.HeapTie.sequenceCopy_fresh", "SCoda.HeapTie.sequenceSplit_fresh", "SCoda.HeapTie.barCopy_fresh", "SCoda.HeapTie.barCopy_model_fresh", "SCoda.HeapTie.trackCopy_fresh", "SCoda.HeapTie.compositionCopy_fresh", "SCoda.HeapTie.messageCopy_eq_statement_false"]),
     ("TIE BY TRANSLATION (identity level, part 2): RelativeSequence.split ITSELF is re-translated from the source on every run with respect to object identity AND value (Gen/HeapFns2.lean: every Message(...) / RelativeSequence() allocates a cell, working_memory = copy.copy(self._messages) is a fresh list of the same references, add_message / append store references, integer decisions are translated exactly, no oracle) and proved, for every heap, receiver and list of capacities: it returns normally (the guard before pop(0) and the loop bound len(working_memory)+1 are sufficient); it WRITES NO CELL THAT EXISTED when it was called (the receiver's list object and messages included: the receiver is not consumed, a cut wait is replaced by two new waits and not shortened in place); every returned piece is a view allocated by the call holding message objects of the receiver's list and messages allocated by the call only (the pieces DO share messages with the receiver: the all-fresh statement is refuted by a kernel-checked example, replayed on the real code; the repair of D13 is the seq.copy() in Sequence.split); hence the region statement HeapL.splitView_spec that C16c uses of the link holds of the translated method (simulation, not equality: the code allocates view objects it discards and interleaves the allocation of the cut messages of two pieces). Sequence.split with NO link (sequenceSplit2) is the translated RelativeSequence.split followed by HeapOps.wrapCopies: every cell reachable from a returned Sequence was allocated by the call and is not reachable from the source, and every cell that existed keeps its content except possibly the source's own wrapper cell (a stale relative view is regenerated). sequences_split_bars: HeapOps.sbBar asks the oracle for the bar's scalars BEFORE quantise_note_lengths, the code evaluates the arguments of Bar(...) AFTER it; the two are proved equal on the heaps of the call site (the piece's absolute view stale or missing, or no relative view: every sequence_to_add is a wrapper the method has just built), refuted by a kernel-checked heap on which a live absolute view shares a message with the relative view, and the freshness calculus holds of either order; the loop skeleton of sequences_split_bars is still tied by the sampled heap-history correspondence only",
      ["SCoda.HeapTie2.relativeSequenceSplit_ok", "SCoda.HeapTie2.relativeSequenceSplit_frame", "SCoda.HeapTie2.relativeSequenceSplit_receiver", "SCoda.HeapTie2.relativeSequenceSplit_pieces", "SCoda.HeapTie2.pieces_allFresh_statement_false", "SCoda.HeapTie2.relativeSequenceSplit_spec", "SCoda.HeapTie2.sequenceSplit2_eq_wrapCopies", "SCoda.HeapTie2.sequenceSplit2_fresh", "SCoda.HeapTieB.sbBar_order_agree", "SCoda.HeapTieB.sbBar_order_statement_false", "SCoda.HeapTieB.sbBarPy_spec", "SCoda.HeapTieB.pieceOk_wrapped", "SCoda.HeapTieB.pieceOk_empty"]),
+    ("TIE BY TRANSLATION (identity level, part 3): the four view-level methods that were still LINKS of the identity model — RelativeSequence.to_absolute_sequence, AbsoluteSequence.to_relative_sequence, RelativeSequence.normalise_relative, RelativeSequence.pad (they run on every regeneration of a stale view and inside Bar.__init__) — and their callees (_add_message_unsorted, normalise_absolute / sort, add_message / util.binary_insort) are re-translated from the source on every run with respect to object identity AND value (Gen/HeapFns3.lean: every msg.copy() / Message(...) / view constructor allocates a cell, message_to_add.time = ... is a STORE into the cell of message_to_add, self._messages = ... / .append / .insert / .sort are stores into the view's list cell, integer decisions exact, a None operand of arithmetic raises, no oracle; the sort call is the one translated into Gen/SortFns.lean) and proved, for every heap and receiver, on BOTH exits (normal return and exception): the two CONVERSIONS write NO cell that existed (the time is written into the COPY, never into the receiver's message; the sort and the binary insertion re-order the NEW view's list) and return a view allocated by the call ALL of whose messages were allocated by the call (nothing shared with the receiver) — exactly HeapOps.convView; NORMALISE_RELATIVE and PAD write, of the cells that existed, ONLY the receiver's list cell (no message of the receiver: waits are consolidated into NEW WAIT messages, an existing wait is never lengthened; no other view), allocate WAIT messages only, and the list afterwards holds message objects of the old list and messages allocated by the call — exactly HeapOps.rebuildView / padView; after pad the list is the old list or the old list with ONE new WAIT appended at the end; the HeapOps links write within the same frames for every oracle (link_frames_agree: no disagreement between the identity model and the code); hence the region statements HeapL.convView_spec / rebuildView_spec / padView_spec that C16c uses of the links hold of the translated methods (simulation, not equality: the code allocates the view before its messages), and HeapL.getAbs_spec / getRel_spec hold of the abs / rel properties re-translated on top of the translated conversions (sequenceAbs3 / sequenceRel3: the regeneration of a stale view with no link). They return normally when the receiver's messages exist and have the times the arithmetic needs (to_relative_sequence: every message has a time; pad / normalise_relative: every WAIT has a time; the dict lookups of normalise_relative follow a setdefault, pop(-1) and remove are guarded); for to_absolute_sequence the corresponding statement (wait times present, comparable sort keys; loop bound of binary_insort) is checked by evaluation on examples and by the differential test only. Differential test with real id()s (tools/diff_py2lean_heap3.py: 1 600 calls, ill-formed lists and repeated objects included, 0 differences), mutation self-test (tools/test_py2lean_heap3.sh: 14 identity-changing edits, all caught)",
+     ["SCoda.HeapTie3.toAbs_frame", "SCoda.HeapTie3.toAbs_result", "SCoda.HeapTie3.toAbs_spec", "SCoda.HeapTie3.toRel_frame", "SCoda.HeapTie3.toRel_result", "SCoda.HeapTie3.toRel_spec", "SCoda.HeapTie3.toRel_ok", "SCoda.HeapTie3.normalise_frame", "SCoda.HeapTie3.normalise_spec", "SCoda.HeapTie3.normalise_ok", "SCoda.HeapTie3.pad_frame", "SCoda.HeapTie3.pad_spec", "SCoda.HeapTie3.pad_shape", "SCoda.HeapTie3.pad_ok", "SCoda.HeapTie3.link_frames_agree", "SCoda.HeapTie3.conv_shares_nothing", "SCoda.HeapTie3.sequenceAbs3_spec", "SCoda.HeapTie3.sequenceRel3_spec"]),
 ]
 RULE = ("originals (<=6 notes, 1-2 channels, key signatures, control / program changes, time signatures anywhere for copy / split and on bar lines for the "
         "bar routes) x derivation routes (Sequence.copy, split, sequences_split_bars with "
